@@ -57,10 +57,11 @@ CHECKS = [
         "Oracle: bytes and wait status recomputed from the script, payload delivery (count + hash seen by the child), check/timeout semantics with a simulated-time bound, "
         "reaping, livelock, and the open descriptor set before/after. Sampling, not proof.",
         "Trusted: the real kernel's pipe/wait/signal semantics (deterministic under lock-step; re-checked by the determinism gate), vsim/child.c, the wrappers in engines/sim_proc.cc. "
-        "Assumes the embedding program ignores SIGPIPE. communicate() is not expected to drain stderr.",
+        "Assumes the embedding program ignores SIGPIPE. communicate() is not expected to drain stderr. Only gettimeofday is simulated: a correct change to std::chrono clocks "
+        "(read inside libstdc++.so) is wrongly reported; a child created by vfork/posix_spawn/clone is invisible (DESIGN.md 10).",
         "DESIGN.md 4.3", "deterministic simulation with fault injection (lock-stepped real child process, wrapped parent system calls as scheduling points, simulated clock)"),
     chk("C16", "sim-par",
-        "Seeded search over thread interleavings: the unmodified Tools.hh templates are instantiated against scheduler-controlled std::atomic/std::thread/std::jthread/std::mutex/std::condition_variable/std::this_thread/usleep/now "
+        "Seeded search over thread interleavings: the unmodified Tools.hh templates are instantiated against scheduler-controlled std::atomic/std::thread/std::jthread/std::mutex/std::condition_variable/std::counting_semaphore/std::latch/std::this_thread/usleep/now "
         "shims (macro retargeting in the harness TU), a seeded cooperative scheduler decides who runs at every atomic operation, thread start, join, sleep and callback "
         "entry (strategies: run-to-completion, uniform, PCT, starvation, round-robin; progress timer may fire early), and the recorded callback history is checked for "
         "exactly-once / at-most-once visits, range, thread numbers, returned value, joined threads, deadlock and termination; configurations include ranges at the "
@@ -88,7 +89,8 @@ CHECKS = [
         "point from one seed; each call is checked against a byte-vector/name-set/map reference model, with a strict oracle in fault-free runs and a "
         "'may throw, never lie' oracle when a fault was actually injected. Sampling, not proof.",
         "Trusted: the simulated kernel in vsim/vfs.cc (POSIX-legal behaviours only), glibc stdio (real), the reference models in engines/sim_fs.cc. "
-        "Not covered: real file systems, readdir errors, fsync/durability (phosg never syncs).",
+        "Not covered: real file systems, readdir errors, fsync/durability (phosg never syncs). Calls issued inside shared libraries (std::filesystem) are outside the seam: "
+        "a correct change to them is wrongly reported (DESIGN.md 10).",
         "DESIGN.md 4.2", "deterministic simulation with fault injection (seeded schedules and faults over a simulated kernel, reference-model oracle)"),
 ]
 
